@@ -30,6 +30,7 @@ from vlib import c09_gen as G
 K_EXHAUST = "cabi:amd64:split-aggregate-after-register-exhaustion"
 K_NESTED = "cabi:amd64:nested-struct-padding-split"
 K_CAPTURE = "callback:capturing-closure-as-c-function-pointer"
+K_RETLOAD = "cabi:return-load-shortcut:stale-pointee"
 OPAQUE = os.path.join(VERIF, "harness", "e2e", "overlay", "zz_verif_opaque.go.txt")
 
 CORPUS_SIGS = [  # (kind, shape, pre, post)  — DESIGN.md §8 #22 and the nested-padding witnesses, always run first
@@ -39,6 +40,10 @@ CORPUS_SIGS = [  # (kind, shape, pre, post)  — DESIGN.md §8 #22 and the neste
     ("arg", "{db}", "", ""), ("echo", "{pf}", "", ""), ("cbs", "{fbff}", "", ""), ("ret", "{db}", "qqqqqq", ""),
     ("arg", "{bbbbb{bw}}", "", ""), ("ret", "{bbbbb{bw}}", "", ""), ("cbs", "{{hb}{hb}bb}", "", ""), ("echo", "{[2{hb}]bb}", "q", "d"),
     ("arg", "{qqq}", "qqqqqq", "q"), ("echo", "{qqq}", "qqqqq", "q"), ("cbs", "{d[9q]}", "qfq", "b"),
+    # copy through a pointer, mutate the pointee, return the copy — one per AttrKind (direct, coerce, coerce2, memory)
+    ("cbm", "{w}", "", ""), ("cbm", "{d}", "", ""), ("cbm", "{ww}", "", ""), ("cbm", "{ff}", "", ""), ("cbm", "{bbb}", "", ""),
+    ("cbm", "{hb}", "", ""), ("cbm", "{[2w]}", "", ""), ("cbm", "{www}", "", ""), ("cbm", "{qd}", "", ""), ("cbm", "{bbbbb{bw}}", "", ""),
+    ("cbm", "{qqq}", "", ""), ("cbm", "{d[9q]}", "", ""),
 ]
 
 
@@ -74,6 +79,11 @@ def gen_case_sig(rng, t, kind, force=None):
     pre = gen_scalars(rng, npre, mode)
     post = gen_scalars(rng, nother - npre, rng.choice(["ints", "mixed", "floats"]))
     return pre, post
+
+
+def mism_cur_any(real, model):
+    """does the real classifier differ from the live model anywhere? (then the tree is not the current code)"""
+    return any(a != b for a, b in zip(real, model))
 
 
 # ------------------------------------------------------------------------------------------------ the check
@@ -147,7 +157,7 @@ def run(ctx, args):
     if len(real) != len(lines):
         raise HarnessBuildError("harness/c09 died: %d/%d lines\n%s" % (len(real), len(lines), err[-3000:]))
     model, _, err2 = run_lines([modeld], lines)
-    fixl, _, _ = run_lines([modeld], [l.replace("cls ", "clsfix ", 1).replace("clsret ", "clsretfix ", 1) for l in lines])
+    legl, _, _ = run_lines([modeld], [l.replace("cls ", "clslegacy ", 1).replace("clsret ", "clsretlegacy ", 1) for l in lines])
     specl, _, _ = run_lines([modeld], ["spec " + c for c in codes])
     if len(model) != len(lines) or len(specl) != len(codes):
         raise RuntimeError("modeld_c09 died: %s" % err2[-2000:])
@@ -155,39 +165,45 @@ def run(ctx, args):
     for i, c in enumerate(codes):
         judge_lines += ["judge %s %s" % (c, kind_of(real[2 * i])), "judge %s %s" % (c, kind_of(real[2 * i + 1]))]
     judged, _, _ = run_lines([modeld], judge_lines)
-    mism_cur, mism_fix = [], []
+    mism_cur, mism_leg = [], []
+    legacy_tree = mism_cur_any(real, model) and not mism_cur_any(real, legl)
     shape_info = {}
     n_unsound = 0
     n_unsound_natural = 0
+    n_reported_cls = 0
     kinds_hist = {}
     for i, c in enumerate(codes):
         natural = specl[i].endswith("natural=1")
+        wf = " wf=1" in specl[i]
         sound = judged[2 * i] == "sound" and judged[2 * i + 1] == "sound"
         shape_info[c] = {"real": kind_of(real[2 * i]), "realret": kind_of(real[2 * i + 1]), "natural": natural, "sound": sound,
-                         "spec": specl[i].split(" natural=")[0], "i0": has_i0(real[2 * i]) or has_i0(real[2 * i + 1])}
+                         "spec": specl[i].split(" wf=")[0], "wf": wf, "i0": has_i0(real[2 * i]) or has_i0(real[2 * i + 1])}
         kinds_hist[kind_of(real[2 * i]).split()[0]] = kinds_hist.get(kind_of(real[2 * i]).split()[0], 0) + 1
         for j in (0, 1):
             if real[2 * i + j] != model[2 * i + j]:
                 mism_cur.append((lines[2 * i + j], real[2 * i + j], model[2 * i + j]))
-            if real[2 * i + j] != fixl[2 * i + j]:
-                mism_fix.append((lines[2 * i + j], real[2 * i + j], fixl[2 * i + j]))
+            if real[2 * i + j] != legl[2 * i + j]:
+                mism_leg.append((lines[2 * i + j], real[2 * i + j], legl[2 * i + j]))
         if not sound:
             n_unsound += 1
             if natural:
                 n_unsound_natural += 1
-            if natural and n_unsound_natural <= 3:     # a few concrete witnesses are enough; the count is in the evidence
+            # the model of the current code is proved sound on EVERY shape: an unsound real classification is a violation;
+            # on a pre-fix tree the non-natural shapes are the (fixed) nested-padding class, judged by execution below
+            if (natural or not legacy_tree) and n_reported_cls < 3:
+                n_reported_cls += 1
                 ctx.report("cabi:amd64:classify:" + c, "internal/cabi classifies %s as '%s' (result: '%s'): not the psABI register image" %
                            (c, kind_of(real[2 * i]), kind_of(real[2 * i + 1])),
                            {"shape": c, "real": real[2 * i], "real_ret": real[2 * i + 1], "psabi": specl[i], "model": model[2 * i]})
-    # which variant of the classifier does the tree implement?
-    variant = "current"
-    if mism_cur and not mism_fix:
-        variant = "repaired"      # fixes/C09-1.diff applied: split at the real offsets
+    # which variant of the classifier does the tree implement?  (the model's live variant is the repaired one)
+    variant = "repaired"
+    if mism_cur and not mism_leg:
+        variant = "legacy"        # a tree from before "fix: split two-eightbyte aggregates at the real element offsets"
     stats["classifier_variant"] = variant
-    mism = mism_cur if variant == "current" else mism_fix
+    mism = mism_cur if variant == "repaired" else mism_leg
     ctx.log("classification: %d shapes x {param,result}; real vs model mismatches %d (variant %s); unsound on real code: %d" %
             (len(codes), len(mism), variant, n_unsound))
-    P = "" if variant == "current" else "fix"
+    P = "" if variant == "repaired" else "legacy"
 
     # signatures (transformFuncType): real vs model
     sig_lines = []
@@ -253,6 +269,9 @@ def run(ctx, args):
             cs = G.Case(len(cases), kind, si, t, pre, post, rng, closure=(rng.random() < 0.4))
             pos_cov.add((len(pre) + len(post), len(pre)))
             cases.append(cs)
+    # copy through a pointer, mutate the pointee, return the copy (the result must carry the ORIGINAL values)
+    for si, t in enumerate(run_shapes[:(60 if quick else 400)]):
+        cases.append(G.Case(len(cases), "cbm", si, t, [], [], rng, closure=(si % 2 == 0)))
     # a Go func literal that CAPTURES a variable, handed to C as a callback (a few per run; they may kill the process)
     for j in range(3):
         t = run_shapes[(j * 11) % len(run_shapes)]
@@ -301,9 +320,17 @@ def run(ctx, args):
     # judge every failing case; compare observation with the model's prediction
     by_idx = {c.idx: c for c in cases}
     n_known, n_pred_mism = 0, []
-    classes = {"exhaustion": 0, "nested": 0, "capture": 0, "other": 0}
+    classes = {"exhaustion": 0, "nested": 0, "capture": 0, "return-load-shortcut": 0, "other": 0}
     for c in cases:
         p = pred[c.idx]
+        if c.kind == "cbm" and c.idx in failures and shape_info[G.code(c.t)]["sound"] and \
+                shape_info[G.code(c.t)]["realret"].startswith("coerce "):
+            # AttrWidthType result + `r := *p; mutate; return r`: transformFuncBody re-reads the load's source at the return
+            classes["return-load-shortcut"] += 1
+            rep = dict(c.describe())
+            rep["observed"] = failures[c.idx]
+            ctx.report(K_RETLOAD, "func(p *T) T { r := *p; p.<leaf0> = v; return r } called from C returns the MODIFIED value: " + G.code(c.t), rep)
+            continue
         if c.capture:
             # closures are outside the placement model: judged on their own
             if c.idx in failures and pred[c.idx].get("eq") == "1" and shape_info[G.code(c.t)]["sound"]:
